@@ -1,6 +1,10 @@
 use crate::engine::Ctx;
 
+pub mod c01;
 pub mod c02;
+pub mod c04;
+pub mod c05;
+pub mod c09;
 pub mod c03;
 pub mod c08;
 pub mod c11;
@@ -13,7 +17,11 @@ pub mod c19;
 
 pub fn run(id: &str, ctx: &mut Ctx) -> bool {
     match id {
+        "C01" => c01::run(ctx),
         "C02" => c02::run(ctx),
+        "C04" => c04::run(ctx),
+        "C05" => c05::run(ctx),
+        "C09" => c09::run(ctx),
         "C03" => c03::run(ctx),
         "C08" => c08::run(ctx),
         "C11" => c11::run(ctx),
